@@ -40,22 +40,22 @@ let canon (n : z) (d : z) : rat =
 let rec pow2z k = if k <= 0 then z_of_int 1 else Z.mul (z_of_int 2) (pow2z (k - 1))
 
 let lit_ep (s : string) : xq =
-  if s = "-inf" then XMinf else if s = "+inf" then XPinf else
+  if s = "-inf" then XQMinf else if s = "+inf" then XQPinf else
   let k = s.[0] and rest = String.sub s 1 (String.length s - 1) in
   let pair () = match String.index_opt rest '/' with
     | Some i -> (String.sub rest 0 i, String.sub rest (i + 1) (String.length rest - i - 1))
     | None -> raise (Bad s) in
   match k with
-  | 'i' -> XFin (z_of_string rest, z_of_int 1)
-  | 'q' -> let (a, b) = pair () in XFin (canon (z_of_string a) (z_of_string b))
-  | 'd' -> let (a, b) = pair () in XFin (canon (z_of_string a) (pow2z (int_of_string b)))
+  | 'i' -> XQFin (z_of_string rest, z_of_int 1)
+  | 'q' -> let (a, b) = pair () in XQFin (canon (z_of_string a) (z_of_string b))
+  | 'd' -> let (a, b) = pair () in XQFin (canon (z_of_string a) (pow2z (int_of_string b)))
   | _ -> raise (Bad s)
 
 (* "n/d" as printed by the C driver *)
 let value_ep (s : string) : xq option =
-  if s = "-inf" then Some XMinf else if s = "+inf" then Some XPinf else
+  if s = "-inf" then Some XQMinf else if s = "+inf" then Some XQPinf else
   match String.index_opt s '/' with
-  | Some i -> (try Some (XFin (canon (z_of_string (String.sub s 0 i)) (z_of_string (String.sub s (i + 1) (String.length s - i - 1)))))
+  | Some i -> (try Some (XQFin (canon (z_of_string (String.sub s 0 i)) (z_of_string (String.sub s (i + 1) (String.length s - i - 1)))))
                with _ -> None)
   | None -> None
 
